@@ -40,12 +40,34 @@ RUN_TIMEOUT_S = 120
 REEXEC_EVERY = 97   # ~1 % of runs are executed twice in-process and their digests compared
 
 
-class RunTimeout(Exception):
+class RunTimeout(BaseException):
     pass
 
 
 def _alarm(signum, frame):
     raise RunTimeout()
+
+
+_QUIET = [False]
+
+
+def _quiet_worker():
+    """Workers compute with NaNs, singular systems etc. on purpose (legal outcomes); keep stderr readable."""
+    if _QUIET[0]:
+        return
+    _QUIET[0] = True
+    import warnings
+    import numpy as _np
+    warnings.simplefilter("ignore")
+    _np.seterr(all="ignore")
+    try:
+        keep = os.dup(2)
+        devnull = os.open(os.devnull, os.O_WRONLY)
+        os.dup2(devnull, 2)          # LAPACK's XERBLA writes straight to fd 2
+        os.close(devnull)
+        faulthandler.enable(file=os.fdopen(keep, "w"))
+    except OSError:
+        faulthandler.enable()
 
 
 def machine(prop):
@@ -59,7 +81,7 @@ def batch_seed(verif_seed, prop, batch, index):
 def _chunk(task):
     prop, batch, verif_seed, start, count = task
     m = machine(prop)
-    faulthandler.enable()
+    _quiet_worker()
     signal.signal(signal.SIGALRM, _alarm)
     agg = {"runs": 0, "ops": 0, "fired": Counter(), "probes": Counter(), "kernel_calls": Counter(),
            "trace_keys": set(), "states": set(), "viols": [], "timeouts": 0, "digest_mismatch": 0,
@@ -379,10 +401,10 @@ def run_check(prop, tier, verif_seed, workers=None, runs_override=None, wall_ove
     with open(os.path.join(env.VERIF, "evidence", prop + ".json"), "w") as f:
         f.write(jdump(ev, indent=1, sort_keys=True))
     print("SUMMARY property=%s runs=%d (nofault=%d fault=%d) ops=%d distinct_nontrivial=%d states=%d faults_fired=%s "
-          "known=%d new=%d harness_errors=%d wall=%.1fs exit=%d" % (
+          "known=%d new=%d harness_errors=%d search=%.1fs wall=%.1fs exit=%d" % (
               prop, n_runs, total["runs"].get("nofault", 0), total["runs"].get("fault", 0), total["ops"],
               len(total["trace_keys"]), len(total["states"]), dict(total["fired"]), sum(known_hit.values()),
-              len(reported), len(total["harness_errors"]), wall, exit_code))
+              len(reported), len(total["harness_errors"]), search_wall, wall, exit_code))
     for h in total["harness_errors"][:5]:
         print("HARNESS-ERROR %s" % h.replace("\n", " | ")[:800])
     return exit_code
